@@ -11,7 +11,9 @@ HARNESS = "hgdrive"
 RULE = ("random dataflow programs in which if_then_else selections (reference-shaped outputs) are wired between sources and "
         "instrumented consumers: several consumers below one reference, references feeding other selections, references passed "
         "into inlined and nested sub-graphs, conditions that re-tick with the same truth value, retargets to targets that ticked "
-        "earlier / in the same cycle / never, retarget back. Oracle (model): a consumer runs at t iff the reference was "
+        "earlier / in the same cycle / never, retarget back; stdlib tsd[key] (getitem_) with a ticking key as the source of the "
+        "reference (re-pointed by key ticks, emptied while the key is absent, re-bound when it appears; readers inline and "
+        "inside nested graphs). Oracle (model): a consumer runs at t iff the reference was "
         "retargeted at t to a valid target or the selected target ticked at t; it reads the target's current value with "
         "modified == true; re-publishing the same reference and ticks of unselected targets never run it. Non-trivial: >= 1 "
         "retarget to a valid target and >= 1 unselected-target tick; distinct by case text")
@@ -22,7 +24,9 @@ FLOORS = {"ref_retargets": {"quick": 500, "thorough": 8000}, "ref_target_ticks":
           "ref_retarget_to_invalid": {"quick": 30, "thorough": 500}, "runs_compared": {"quick": 20000, "thorough": 300000},
           "coll_ref_retargets": {"quick": 150, "thorough": 2500}, "coll_ref_target_ticks": {"quick": 300, "thorough": 5000},
           "coll_ref_retarget_while_old_target_removes": {"quick": 15, "thorough": 250},
-          "sibling_ref_retargets": {"quick": 150, "thorough": 2500}, "sibling_ref_unselected_ticks": {"quick": 150, "thorough": 2500}}
+          "sibling_ref_retargets": {"quick": 150, "thorough": 2500}, "sibling_ref_unselected_ticks": {"quick": 150, "thorough": 2500},
+          "getitem_retargets": {"quick": 60, "thorough": 900}, "getitem_target_ticks": {"quick": 60, "thorough": 900},
+          "getitem_rebinds_after_key_appears": {"quick": 80, "thorough": 1200}, "getitem_cycles_with_absent_key": {"quick": 150, "thorough": 2000}}
 BATCH = 25
 
 
@@ -135,6 +139,122 @@ def check_relay(case, tr):
     return res
 
 
+def gen_getitem_ref(rng, name):
+    """stdlib `tsd[key]` (getitem_) with a TICKING key: the result is a reference to the element under the current key - re-pointed
+    when the key moves to another key, emptied while the key is absent, re-bound when the key (re)appears. Two consumers read
+    through it."""
+    from .prog import Case, S
+    end = rng.choice([30, 45])
+    c = Case(name, 0, end)
+    keys = list(range(1, rng.choice([3, 4, 6]) + 1))
+    live, sc, v = set(), [], 0
+    for t in sorted(rng.sample(range(0, end), rng.choice([10, 18, 26]))):
+        ops, touched = [], set()
+        for _ in range(rng.choice([1, 1, 2, 3])):
+            k = rng.choice(keys)
+            if k in touched:
+                continue            # one mutation per key and cycle (erase + re-insert in one cycle is not an epoch boundary)
+            touched.add(k)
+            if k in live and rng.random() < 0.3:
+                ops.append(f"x[{k}]")
+                live.discard(k)
+            else:
+                v += 1
+                ops.append(f"[{k}]={v}")
+                live.add(k)
+        if ops:
+            sc.append(f"{t}|" + ",".join(ops))
+    c.cscripts[1] = sc
+    ks, cur = [], None
+    for t in sorted(rng.sample(range(0, end), rng.choice([5, 9, 14]))):
+        cur = rng.choice(keys + [9]) if (cur is None or rng.random() < 0.75) else cur      # 9 is never a key; some re-ticks
+        ks.append((t, cur))
+    c.scripts[2] = ks
+    c.meta.update(kind="getitem", readers=[10, 12])
+    c.graphs["main"] = [S("d", "csrc", shape="tsd", uid=1), S("k", "src", uid=2, mode=0), S("g", "getitem", "d", "k"),
+                        S("z", "pass", "g", uid=10), S("", "rec", "z", uid=11), S("y", "pass", "g", uid=12), S("", "cmirror", "d", uid=13)]
+    nest = rng.choice([0, 0, 1, 2])
+    if nest:
+        # a reader inside a nested graph (depth 1 / 2); the key ticks in the first cycle so that the reference handed in has been
+        # published (an unset reference across a nested boundary is the known finding F22)
+        if ks[0][0] != 0:
+            c.scripts[2] = [(0, rng.choice(keys + [9]))] + ks
+        c.graphs["sub0"] = [S("q", "pass", "p0", uid=20), S("", "RET", "q")]
+        c.graphs["sub1"] = [S("n", "nested", "p0", sid=0), S("q", "pass", "n", uid=21), S("", "RET", "q")]
+        c.graphs["main"] += [S("w", "nested", "g", sid=nest - 1), S("", "rec", "w", uid=30)]
+        c.meta["readers"].append(20)
+    return c
+
+
+def check_getitem(case, tr):
+    """Oracle (direct): the consumer runs at t iff the current key's element exists and holds a value and (the binding changed at t
+    - the key ticked to another key, or the element under the key was (re)created - or the element was written at t); it then reads
+    the element's current value as modified. It never runs for writes to other keys, for a key tick that repeats the current
+    key, or while the key is absent."""
+    from .gen_coll import write_log
+    res = Result(signature=case.text().split("\n", 1)[1])
+    run = tr.runs[0]
+    if tr.build_error or run.error:
+        res.violations.append(Violation(f"build/run failed: {tr.build_error or run.error}"))
+        return res
+    wl = dict(write_log(run).get(1, []))
+    ktick = dict(case.scripts[2])
+    D, epoch, sel, prev_target = {}, {}, None, None
+    V = []
+    retargets = target_ticks = absent = rebinds = same = unselected = 0
+    got = {u: {ue.t: ue for ue in run.uevals() if ue.uid == u} for u in case.meta["readers"]}
+    for t in range(case.start, case.end):
+        written = set()
+        for op in wl.get(t, []):
+            if op.startswith("x["):
+                D.pop(int(op[2:-1]), None)
+            else:
+                k, val = op[1:].split("]=")
+                k = int(k)
+                if k not in D:
+                    epoch[k] = epoch.get(k, 0) + 1
+                D[k] = int(val)
+                written.add(k)
+        if t in ktick:
+            if ktick[t] == sel:
+                same += 1
+            sel = ktick[t]
+        target = (sel, epoch[sel]) if sel in D else None
+        expect = target is not None and (target != prev_target or sel in written)
+        if target is None and sel is not None and (t in ktick or prev_target is not None):
+            absent += 1
+        if expect:
+            if target != prev_target:
+                if prev_target is not None and prev_target[0] != sel:
+                    retargets += 1
+                else:
+                    rebinds += 1
+            else:
+                target_ticks += 1
+        elif written - {sel}:
+            unselected += 1
+        for u in case.meta["readers"]:
+            ue = got[u].get(t)
+            if expect and ue is None:
+                V.append(f"t={t}: consumer uid {u} of d[key] was not evaluated (key={sel}, element value {D[sel]}, "
+                         f"{'binding changed' if target != prev_target else 'element written'} in this cycle)")
+            elif not expect and ue is not None:
+                V.append(f"t={t}: consumer uid {u} of d[key] was evaluated (reads {ue.ins[0]}) although the current key {sel} "
+                         f"{'is absent' if target is None else 'was neither re-pointed nor written'} (written keys {sorted(written)})")
+            elif expect:
+                valid, mod, lmt, v = ue.ins[0]
+                if v != D[sel] or not mod or not valid:
+                    V.append(f"t={t}: consumer uid {u} of d[key] reads (valid,modified,lmt,value)={ue.ins[0]}; the element under key {sel} "
+                             f"holds {D[sel]} and must read as modified")
+        prev_target = target
+    for m in V[:5]:
+        res.violations.append(Violation(m))
+    res.counters = {"getitem_retargets": retargets, "getitem_rebinds_after_key_appears": rebinds, "getitem_target_ticks": target_ticks,
+                    "getitem_cycles_with_absent_key": absent, "getitem_same_key_reticks": same, "getitem_unselected_key_writes": unselected}
+    res.nontrivial = retargets >= 1 and target_ticks >= 1
+    return res
+
+
 def gen_sibling_ref(rng, name):
     """Selection between two ELEMENTS OF ONE list output (same owning output, same schema): references to siblings."""
     from .prog import Case, S
@@ -209,6 +329,7 @@ def generate(rng, tier, seed):
     cases += [gen_coll_ref(rng, f"c13_{seed}_coll{k}") for k in range(n // 4)]
     cases += [gen_sibling_ref(rng, f"c13_{seed}_sib{k}") for k in range(n // 5)]
     cases += [gen_relay_ref(rng, f"c13_{seed}_rly{k}") for k in range(n // 5)]
+    cases += [gen_getitem_ref(rng, f"c13_{seed}_gi{k}") for k in range(n // 4)]
     from .witness import f12_case
     cases.append(f12_case(f"c13_{seed}_witnessF12"))
     from .witness import f22_case
@@ -341,6 +462,8 @@ def check(case, tr):
         return check_sibling(case, tr)
     if case.meta.get("kind") == "relay":
         return check_relay(case, tr)
+    if case.meta.get("kind") == "getitem":
+        return check_getitem(case, tr)
     res = Result(signature=case.text().split("\n", 1)[1])
     if tr.build_error:
         res.violations.append(Violation(f"valid program rejected at build: {tr.build_error}"))
